@@ -230,6 +230,31 @@ func rulesC07(w *World, r *Report) {
 			}
 		}
 	}
+	// Header.TakeFrom validates what it has just decoded: a validator given a field of the receiver runs after the
+	// decoded bytes were stored into that field
+	if takeFrom != nil {
+		for _, v := range []*ssa.Function{vAgg, vXff} {
+			if v == nil {
+				continue
+			}
+			for _, c := range callsTo(takeFrom, v) {
+				arg := c.Common().Args[0]
+				okV := strings.Contains(newExprCtx(w).expr(arg), "Uint32(")
+				if u, isU := arg.(*ssa.UnOp); isU && u.Op == token.MUL {
+					if _, fld, isF := fieldAddrOf(u.X); isF {
+						eachInstr(takeFrom, func(in ssa.Instruction) {
+							if st, isSt := in.(*ssa.Store); isSt {
+								if _, f2, ok2 := fieldAddrOf(st.Addr); ok2 && f2 == fld && strings.Contains(newExprCtx(w).expr(st.Val), "Uint32(") && dominatesInstr(st, c) {
+									okV = true
+								}
+							}
+						})
+					}
+				}
+				r.Check(okV, "C07.R1", "Header.TakeFrom:validates-what-it-decoded:"+v.Name(), w.instrPos(c), "the value validated is the one decoded from the bytes", "Header.TakeFrom gives "+v.Name()+" "+shortExpr(newExprCtx(w).expr(arg))+" before the decoded value is there: what is checked is whatever the Header held before, and a decoded NaN, Inf or out-of-range value is accepted")
+			}
+		}
+	}
 	// what is validated is what is kept: validate's receiver is the list stored in the header
 	if newHeader != nil && val != nil {
 		for _, c := range callsTo(newHeader, val) {
@@ -1168,6 +1193,19 @@ func rulesC03(w *World, r *Report) {
 		for _, c2 := range callsTo(upm, aum) {
 			if sameLeaves(as[1], c2.Common().Args[3]) {
 				okNow = true
+			}
+		}
+		// ... and that clock value is the one given (or the package clock when 0 was given), nothing taken from the batch
+		for _, l := range leavesOf(as[1]) {
+			switch t := l.(type) {
+			case *ssa.Parameter:
+			case *ssa.Call:
+				if sc := t.Common().StaticCallee(); sc == nil || sc.Name() != "TimestampFromStdTime" {
+					okNow = false
+				}
+			case *ssa.Const:
+			default:
+				okNow = false
 			}
 		}
 		r.Check(okNow && !strings.Contains(ex.expr(as[1]), "intervalForWrite"), "C03.R4", "UpdatePointsForArchive:partition-clock", w.instrPos(c), "the partition uses the caller's clock value", "extractPoints is given "+ex.expr(as[1])+" instead of the clock value itself: the per-archive age cutoff moves and points just past a retention boundary are routed to the finer archive or dropped")
